@@ -61,7 +61,33 @@ ChainFails(e) ==
             <<"ChainNotLessNotGreater@" \o ToString(j), h.unit # e.u0 => (~h.lt_fresh /\ ~h.gt_fresh)>> })
         : j \in 1..Len(e.hops) }
 
+\* ---- calls recorded from the repository's OWN unit tests (harness/repo_units_plugin.py): one public call each ----
+\* rto: q.to(u2, inplace) on a quantity of value v in u1; `after' is the receiver re-read after the call
+RtoFails(e) ==
+  LET exp == Conv(e.v, e.kind, e.u1, e.u2) IN
+  IF ~e.out.ok THEN {"RConvRaised_" \o e.out.err}
+  ELSE IF ~Nums({e.out.val, e.after.val}) THEN {"RConvFinite"}
+  ELSE Failing({
+    <<"RConvValue",          CloseS(e.out.val, exp, EpsConv, RAbs(exp))>>,
+    <<"RConvUnitLabel",      e.out.unit = e.u2>>,
+    <<"RConvKind",           e.out.cls = e.kind>>,
+    <<"RConvInplaceSameObj", e.inplace => e.out.same_obj>>,
+    <<"RConvCopyNewObject",  ~e.inplace => ~e.out.same_obj>>,
+    <<"RConvReceiverAfter",  IF e.inplace THEN REq(e.after.val, e.out.val) /\ e.after.unit = e.u2
+                                          ELSE REq(e.after.val, e.v) /\ e.after.unit = e.u1>> })
+
+\* rcmp: one comparison  a <op> b ; in one and the same unit the comparison is exact by design
+RcmpFails(e) ==
+  LET A == SI(e.a, e.k1, e.u1)  B == SI(e.b, e.k2, e.u2)
+      cls == IF e.u1 = e.u2 THEN (IF REq(e.a, e.b) THEN "same" ELSE IF RLt(e.a, e.b) THEN "less" ELSE "greater")
+             ELSE CmpClass(A, B) IN
+  IF ~Comparable(e.k1, e.k2) THEN Failing({ <<"RCmpCrossKindTypeError", ~e.res.ok /\ e.res.err = "TypeError">> })
+  ELSE IF ~e.res.ok THEN {"RCmpRaised_" \o e.res.err}
+  ELSE IF cls = "band" THEN {}
+  ELSE Failing({ <<"RCmp_" \o e.op \o "_" \o cls, e.res.val = CmpExpected(cls)[e.op]>> })
+
 Fails(e) == CASE e.ev = "to" -> ToFails(e) [] e.ev = "cmp" -> CmpFails(e) [] e.ev = "chain" -> ChainFails(e)
+              [] e.ev = "rto" -> RtoFails(e) [] e.ev = "rcmp" -> RcmpFails(e)
 
 Init == tid \in 1..Len(Traces)
 Next == /\ tid > 0
